@@ -28,8 +28,14 @@ type World struct {
 	// transitive write sets (heap keys); "*" means everything
 	ModSet map[*ssa.Function]map[string]bool
 	srcCache map[string][]byte
+	implCache map[string][]*ssa.Function
+	PureIface func(c *ssa.CallCommon) bool // set from the contracts: interface methods declared pure
 	// package-level variables stored only by package initialisers
+	ConstTables map[*ssa.Global]*constTable
 	WE map[*ssa.Function]map[string]*wclass
+	// closed-world function types: signature string -> library functions whose address is taken with that type. Only
+	// signatures that mention an unexported library type are listed (no code outside the library can implement them).
+	SigTargets map[string][]*ssa.Function
 	InitOnly map[*ssa.Global]bool
 	// init-only globals of interface type initialised with a freshly constructed non-nil value
 	NonNilGlobal map[*ssa.Global]bool
@@ -124,7 +130,7 @@ func loadWorld(repo string) (*World, error) {
 	prog, spkgs := ssautil.AllPackages(pkgs, ssa.GlobalDebug)
 	prog.Build()
 	w := &World{RepoDir: repo, Prog: prog, Fset: prog.Fset, Funcs: map[string]*ssa.Function{}, Names: map[*ssa.Function]string{},
-		AddrTaken: map[string]bool{}, ModSet: map[*ssa.Function]map[string]bool{}, srcCache: map[string][]byte{}}
+		AddrTaken: map[string]bool{}, ModSet: map[*ssa.Function]map[string]bool{}, srcCache: map[string][]byte{}, implCache: map[string][]*ssa.Function{}}
 	for _, p := range spkgs {
 		if p == nil || !isLibPkg(p.Pkg.Path()) {
 			continue
@@ -147,8 +153,10 @@ func loadWorld(repo string) (*World, error) {
 		w.Names[f] = n
 	}
 	w.computeAddrTaken()
+	w.computeSigTargets()
 	w.computeModSets()
 	w.computeGlobals()
+	w.computeConstTables()
 	w.computeWritesExisting()
 	return w, nil
 }
@@ -449,8 +457,15 @@ func (w *World) computeModSets() {
 				case ssa.CallInstruction:
 					c := x.Common()
 					if c.IsInvoke() {
+						if impls, ok := w.ifaceImpls(c); ok {
+							callees[f] = append(callees[f], impls...)
+							continue
+						}
 						for k := range w.invokeWrites(c) {
 							d[k] = true
+							if k == "*" && os.Getenv("GOBTVC_DEBUG_STAR") != "" {
+								fmt.Fprintf(os.Stderr, "STAR %s: invoke %s.%s\n", funcName(f), c.Value.Type(), c.Method.Name())
+							}
 						}
 						continue
 					}
@@ -472,6 +487,9 @@ func (w *World) computeModSets() {
 						} else {
 							for k := range w.externalWrites(cv) {
 								d[k] = true
+								if k == "*" && os.Getenv("GOBTVC_DEBUG_STAR") != "" {
+									fmt.Fprintf(os.Stderr, "STAR %s: external %s\n", funcName(f), cv.String())
+								}
 							}
 						}
 					case *ssa.MakeClosure:
@@ -479,8 +497,12 @@ func (w *World) computeModSets() {
 							callees[f] = append(callees[f], fn)
 						}
 					default:
-						for k := range w.funcValueWrites(c) {
-							d[k] = true
+						if ts, ok := w.sigTargetsOf(c); ok {
+							callees[f] = append(callees[f], ts...)
+						} else {
+							for k := range w.funcValueWrites(c) {
+								d[k] = true
+							}
 						}
 					}
 				}
@@ -509,10 +531,85 @@ func (w *World) computeModSets() {
 	}
 }
 
+// ifaceImpls: for an interface type that no code outside the library can implement (the interface itself is an
+// unexported library type), the library methods a call may dispatch to.
+func (w *World) ifaceImpls(c *ssa.CallCommon) ([]*ssa.Function, bool) {
+	nt, ok := c.Value.Type().(*types.Named)
+	if !ok || nt.Obj().Pkg() == nil || !isLibPkg(nt.Obj().Pkg().Path()) || nt.Obj().Exported() {
+		return nil, false
+	}
+	it, ok := nt.Underlying().(*types.Interface)
+	if !ok {
+		return nil, false
+	}
+	key := nt.String() + "." + c.Method.Name()
+	if r, done := w.implCache[key]; done {
+		return r, len(r) > 0
+	}
+	var out []*ssa.Function
+	for _, p := range w.Pkgs {
+		for _, m := range p.Members {
+			tn, ok := m.(*ssa.Type)
+			if !ok {
+				continue
+			}
+			for _, t := range []types.Type{tn.Type(), types.NewPointer(tn.Type())} {
+				if _, isIface := tn.Type().Underlying().(*types.Interface); isIface {
+					continue
+				}
+				if !types.Implements(t, it) {
+					continue
+				}
+				sel := w.Prog.MethodSets.MethodSet(t).Lookup(c.Method.Pkg(), c.Method.Name())
+				if sel == nil {
+					continue
+				}
+				fn := w.Prog.MethodValue(sel)
+				if fn == nil {
+					continue
+				}
+				// synthetic wrappers (*T calling T's method) delegate to the declared method
+				if fn.Synthetic != "" {
+					if decl := w.Prog.FuncValue(sel.Obj().(*types.Func)); decl != nil {
+						fn = decl
+					}
+				}
+				dup := false
+				for _, o := range out {
+					if o == fn {
+						dup = true
+					}
+				}
+				if !dup {
+					out = append(out, fn)
+				}
+			}
+		}
+	}
+	w.implCache[key] = out
+	return out, len(out) > 0
+}
+
 // invokeWrites: what an interface method call may write. Known interfaces are listed; the rest is "*".
 func (w *World) invokeWrites(c *ssa.CallCommon) map[string]bool {
 	recv := c.Value.Type().String()
 	m := c.Method.Name()
+	if impls, ok := w.ifaceImpls(c); ok && w.ModSet != nil {
+		out := map[string]bool{}
+		for _, f := range impls {
+			ms, known := w.ModSet[f]
+			if !known {
+				return map[string]bool{"*": true}
+			}
+			for k := range ms {
+				out[k] = true
+			}
+		}
+		return out
+	}
+	if w.PureIface != nil && w.PureIface(c) {
+		return map[string]bool{}
+	}
 	switch {
 	case m == "Error" || m == "String":
 		return map[string]bool{}
@@ -775,4 +872,137 @@ func (w *World) computeGlobals() {
 			}
 		}
 	}
+}
+
+func sigString(t types.Type) string { return types.TypeString(t.Underlying(), shortQual) }
+
+func mentionsUnexportedLibType(t types.Type, depth int) bool {
+	if depth > 6 {
+		return false
+	}
+	switch u := t.(type) {
+	case *types.Named:
+		if u.Obj().Pkg() != nil && isLibPkg(u.Obj().Pkg().Path()) && !u.Obj().Exported() {
+			return true
+		}
+		return false
+	case *types.Pointer:
+		return mentionsUnexportedLibType(u.Elem(), depth+1)
+	case *types.Slice:
+		return mentionsUnexportedLibType(u.Elem(), depth+1)
+	case *types.Signature:
+		for i := 0; i < u.Params().Len(); i++ {
+			if mentionsUnexportedLibType(u.Params().At(i).Type(), depth+1) {
+				return true
+			}
+		}
+		for i := 0; i < u.Results().Len(); i++ {
+			if mentionsUnexportedLibType(u.Results().At(i).Type(), depth+1) {
+				return true
+			}
+		}
+	}
+	return false
+}
+
+func (w *World) computeSigTargets() {
+	w.SigTargets = map[string][]*ssa.Function{}
+	seen := map[*ssa.Function]bool{}
+	for f := range ssautil.AllFunctions(w.Prog) {
+		if f.Blocks == nil || f.Pkg == nil || !isLibPkg(f.Pkg.Pkg.Path()) {
+			continue
+		}
+		for _, b := range f.Blocks {
+			for _, ins := range b.Instrs {
+				for _, op := range ins.Operands(nil) {
+					fn, ok := (*op).(*ssa.Function)
+					if !ok || fn.Blocks == nil || fn.Pkg == nil || !isLibPkg(fn.Pkg.Pkg.Path()) {
+						continue
+					}
+					if ci, isCall := ins.(ssa.CallInstruction); isCall && ci.Common().Value == fn {
+						continue // a direct call, not an address-taken use
+					}
+					if seen[fn] {
+						continue
+					}
+					seen[fn] = true
+					if mentionsUnexportedLibType(fn.Signature, 0) {
+						s := sigString(fn.Signature)
+						w.SigTargets[s] = append(w.SigTargets[s], fn)
+					}
+				}
+			}
+		}
+	}
+}
+
+// sigTargetsOf: the possible callees of a call through a function value of a closed-world type.
+func (w *World) sigTargetsOf(c *ssa.CallCommon) ([]*ssa.Function, bool) {
+	if c.IsInvoke() {
+		return nil, false
+	}
+	if _, isFn := c.Value.(*ssa.Function); isFn {
+		return nil, false
+	}
+	if _, isB := c.Value.(*ssa.Builtin); isB {
+		return nil, false
+	}
+	sg, ok := c.Value.Type().Underlying().(*types.Signature)
+	if !ok || !mentionsUnexportedLibType(sg, 0) {
+		return nil, false
+	}
+	ts := w.SigTargets[sigString(sg)]
+	return ts, len(ts) > 0
+}
+
+// checkPureIfaces: every library type implementing an interface method declared `pure` must write no memory that
+// existed before the call.
+func (w *World) checkPureIfaces(cs *Contracts) []string {
+	var bad []string
+	for _, p := range w.Pkgs {
+		for _, m := range p.Members {
+			tn, ok := m.(*ssa.Type)
+			if !ok {
+				continue
+			}
+			it, isIface := tn.Type().Underlying().(*types.Interface)
+			if !isIface {
+				continue
+			}
+			for i := 0; i < it.NumMethods(); i++ {
+				key := qualName(tn.Type()) + "." + it.Method(i).Name()
+				ct := cs.IfaceFor(key)
+				if ct == nil || !ct.Pure {
+					continue
+				}
+				for _, p2 := range w.Pkgs {
+					for _, m2 := range p2.Members {
+						t2, ok := m2.(*ssa.Type)
+						if !ok {
+							continue
+						}
+						for _, t := range []types.Type{t2.Type(), types.NewPointer(t2.Type())} {
+							if _, isI := t2.Type().Underlying().(*types.Interface); isI || !types.Implements(t, it) {
+								continue
+							}
+							sel := w.Prog.MethodSets.MethodSet(t).Lookup(it.Method(i).Pkg(), it.Method(i).Name())
+							if sel == nil {
+								continue
+							}
+							fn := w.Prog.FuncValue(sel.Obj().(*types.Func))
+							if fn == nil {
+								continue
+							}
+							for k, wc := range w.WE[fn] {
+								if wc.other || len(wc.params) > 0 {
+									bad = append(bad, key+" is declared pure but "+funcName(fn)+" may write existing "+k)
+								}
+							}
+						}
+					}
+				}
+			}
+		}
+	}
+	return bad
 }
